@@ -42,7 +42,30 @@ def main():
         except Exception as e:  # noqa
             txt = ""
         out.append("| %s | %s | %s |" % (pid, "yes" if pid in ready else "not yet", txt.replace("|", "/")[:700]))
-    out += ["", END, ""]
+    out += ["", "## 0.7 Trusted base as built (from the last evidence files; see also section 3)", "",
+            "| prop | property theorems | axioms reported by Print Assumptions | extraction | translator | per-area notes |", "|---|---|---|---|---|---|"]
+    extr = {"C01", "C02", "C03", "C07", "C08", "C13", "C18"}
+    trans = {"C04": "tools/go2coq", "C05": "tools/go2coq", "C15": "tools/go2coq", "C14": "tools/cfg2coq", "C17": "tools/locks2coq", "C18": "tools/errflow2coq"}
+    notes = {"C01": "design/C01-C03-refine.md, design/chain-format.md, design/chaingen.md", "C02": "design/C02-refine.md", "C03": "design/C01-C03-refine.md",
+             "C04": "design/C04-C05-C15.md", "C05": "design/C04-C05-C15.md", "C15": "design/C04-C05-C15.md", "C06": "design/C06.md", "C07": "design/C06.md (bridge)",
+             "C08": "design/C08-proofs.md", "C09": "design/C09-C11.md", "C10": "design/C09-C11.md", "C11": "design/C09-C11.md", "C12": "design/C12.md",
+             "C13": "design/chaingen.md", "C14": "design/C14.md", "C16": "design/C16.md", "C17": "design/C17.md", "C18": "design/C18.md", "C19": "section 4/C19", "C20": "design/C20.md"}
+    for i in range(1, 21):
+        pid = "C%02d" % i
+        ep = os.path.join(ROOT, "evidence", pid + ".json")
+        if not os.path.exists(ep):
+            out.append("| %s | — | — | — | — | %s |" % (pid, notes.get(pid, "")))
+            continue
+        ev = json.load(open(ep))
+        pa = ev["coverage"].get("print_assumptions", {})
+        ax = sorted(set(v for v in pa.values() if v != "Closed under the global context"))
+        out.append("| %s | %d | %s | %s | %s | %s |" % (
+            pid, len(ev["coverage"].get("theorems", [])), "none (all closed under the global context)" if not ax else "; ".join(a.replace("\n", " ")[:200] for a in ax),
+            "ExtrOcamlBasic + ExtrOcamlNativeString + ExtrOCamlInt63 (beacon model -> .build/modelrun)" if pid in extr else "none (vm_compute inside Coq)",
+            trans.get(pid, "none (hand-written model, differential tie)"), notes.get(pid, "")))
+    out += ["", "Always trusted: the Coq 8.16.1 kernel and its vm_compute machine (native_compute is not used; `coqchk` re-checks the property closure in the",
+            "thorough tier), the Go toolchain/runtime, the harnesses and drivers under harness/, lib/, ocaml/, and — for the beacon family — the hand",
+            "transliteration of the consensus pyspec in coq/Beacon/Spec (no pyspec is available offline).", "", END, ""]
     p = os.path.join(ROOT, "DESIGN.md")
     s = open(p).read()
     if BEGIN in s:
